@@ -41,6 +41,11 @@ pub trait AsCteXml {
     /// Helper function -> XML escape symbols
     fn escape_xml(unescaped: &str) -> String {
         unescaped
+            // Los caracteres de control (salvo tab, LF y CR) no son caracteres válidos en XML 1.0
+            .replace(
+                |c: char| (c < ' ' && !matches!(c, '\t' | '\n' | '\r')) || matches!(c, '\u{fffe}' | '\u{ffff}'),
+                "",
+            )
             .replace('&', "&amp;")
             .replace('<', "&lt;")
             .replace('>', "&gt;")
